@@ -5,7 +5,8 @@ from scen import *
 import C15 as _c15
 
 def cases(tier, rng):
-    inputs = [mbutton(0), mbutton(1, CONTROL), motion(), motion(SHIFT), wheel(), wheel(ALT), key(0), key(1, CONTROL), pbutton(0), paxis(0)]
+    inputs = [mbutton(0), mbutton(1, CONTROL), motion(), motion(SHIFT), wheel(), wheel(ALT), key(0), key(1, CONTROL), pbutton(0), paxis(0),
+              mbutton(2), mbutton(3), mbutton(4, CONTROL), mbutton(5)]   # middle, back, forward and a vendor-specific button too
     seqs = list(itertools.product([0, 1, 2], repeat=2))          # Interaction of one element over two frames ...
     n = 3 if tier == 'thorough' else 2
     allseq = list(itertools.product(list(itertools.product([0, 1, 2], repeat=2)), repeat=n))   # two elements, n frames
@@ -15,12 +16,12 @@ def cases(tier, rng):
         steps = [sop(spawn(0, [0, 3])), frame(raw(pads=[pad(0)]))]
         for seq in allseq[chunk:chunk + 6]:
             for ui in seq:
-                steps.append(frame(raw(keys=[0, 1, 102], mbuttons=[0, 1], motion=(F(1), F(-1, 2)), wheel=(F(0), F(1)),
+                steps.append(frame(raw(keys=[0, 1, 102], mbuttons=[0, 1, 2, 3, 4, 5], motion=(F(1), F(-1, 2)), wheel=(F(0), F(1)),
                                        pads=[pad(0, [0], [(0, F(1, 2))])], ui=list(ui))))
             steps.append(frame(raw(pads=[pad(0)], ui=[0, 0])))
         yield (scenario([0, 3], [0], cfg, steps), 'ui-sequences')
     # UI elements that disappear while hovered / pressed (despawned, or losing the Interaction component), and re-appear
-    held = dict(keys=[0, 1, 102], mbuttons=[0, 1], motion=(F(1), F(-1, 2)), wheel=(F(0), F(1)))
+    held = dict(keys=[0, 1, 102], mbuttons=[0, 1, 2, 3, 4, 5], motion=(F(1), F(-1, 2)), wheel=(F(0), F(1)))
     for seq in ([[2], [], [], [1], []], [[0, 1], [0], [0], [0, 2], []], [[1, 2, 1], [1], [], [0, 0, 2], [0, 0]], [[2], [2], [], [], [2]]):
         ids = Ids()
         cfg = {(0, 0): _c15.one_ctx(ids, inputs), (3, 0): _c15.one_ctx(ids, inputs[:4] + inputs[6:8], a_slot=2)}
@@ -49,7 +50,7 @@ def cases(tier, rng):
         steps = [sop(spawn(0, [0, 3])), frame(raw(pads=[pad(0)]))]
         for _ in range(12):
             nui = rng.randint(0, 3)      # elements come and go, also while interacted
-            steps.append(frame(raw(keys=[k for k in [0, 1, 102, 104, 100] if rng.random() < .6], mbuttons=[b_ for b_ in [0, 1] if rng.random() < .6],
+            steps.append(frame(raw(keys=[k for k in [0, 1, 102, 104, 100] if rng.random() < .6], mbuttons=[b_ for b_ in [0, 1, 2, 3, 4, 5] if rng.random() < .6],
                                    motion=(rng.choice([F(0), F(1)]), rng.choice([F(0), F(2)])), wheel=(F(0), rng.choice([F(0), F(1)])),
                                    pads=[pad(0, [0] if rng.random() < .5 else [], [(0, rng.choice([F(0), F(1, 2)]))])],
                                    ui=[rng.choice([0, 0, 1, 2]) for _ in range(nui)]), how=rng.randrange(3)))
